@@ -74,7 +74,7 @@ for p in props:
     text = ('Machine-checked proof in Lean 4 of the full property statement over the model (lean/Sucds/Props/%s.lean: `Statement`, `holds`), re-checked by `lake build` on every run against constants regenerated from /repo, axioms audited; the hand-written model is tied to /repo on every run by a differential correspondence check (same generated scripts through the real code in 2-4 build configurations and through the compiled Lean model; implementation vs model, implementation vs executable specification, model vs specification). ' % pid + FULL[pid]) if full else \
            ('Lean 4 theorems cover part of the statement (named in lean/Sucds/Props/%s.lean and listed in the evidence); the rest of the statement is decided by the checked correspondence: the executable Lean model and the real code run on the same generated scripts and are compared with each other and with the executable specification (the oracle), so a violation comes with a concrete replay. ' % pid + PARTIAL[pid])
     if pid in GEN:
-        text += ' ALSO over the code as translated: ' + GEN[pid] + ' The generated definitions (lean/Sucds/Gen/Fns.lean) are regenerated from /repo on every run by tools/gen_fns.py and proved equal to the model functions (lean/Sucds/Proofs/Gen*.lean), so for these functions the tie is the translator, not testing.'
+        text += ' ALSO over the code as translated: ' + GEN[pid] + ' The generated definitions (lean/Sucds/Gen/Fns.lean) are regenerated from /repo on every run by tools/gen_fns.py and proved equal to the model functions (lean/Sucds/Proofs/Gen*.lean), so for these functions the tie is the translator, not testing; a rewritten function is accepted without re-proving only when Lean proves its fresh translation equal to the pinned one (lean/Sucds/Gen/Current.lean), and the text outside the translated bodies (derives, fields, impl headers, signatures, attributes, Cargo features) is compared with the pinned tree item by item (tools/gen_skeleton.py).'
     checks.append({
       'property_id': pid,
       'quick_cmd': 'python3 tools/check.py %s --tier quick' % pid,
@@ -84,7 +84,7 @@ for p in props:
       'engine': 'lean4-model+correspondence',
       'level_claimed': {'category': cat, 'text': text, 'design_ref': 'DESIGN.md §5 %s' % pid},
       'level_note': 'Trusted: Lean 4.33 kernel; axioms propext, Classical.choice, Quot.sound (+ bv_decide per-call axioms in word-level lemmas only); tools/gen_consts.py; the hand-written model is tied to /repo only by the correspondence run (differential testing, bounded by the generators: sizes up to 3*10^5 bits quick / 2*10^6 thorough); core intrinsics, std read_exact/write_all, Vec/Option semantics, overflow-check/debug-assert build semantics and rustc are modelled, not verified; builder arithmetic is in unbounded Nat (sizes < 2^57).',
-      'technique': ('Lean 4 proof over definitions regenerated from the Rust function bodies on every run (translator tools/gen_fns.py) and proved equal to a hand-written executable model; + ' if pid in GEN else 'Lean 4 proof over a hand-written executable model; + ') + 'checked model/implementation correspondence (differential, 2-4 build configurations)',
+      'technique': ('Lean 4 proof over definitions regenerated from the Rust function bodies on every run (translator tools/gen_fns.py) and proved equal to a hand-written executable model; + ' if pid in GEN else 'Lean 4 proof over a hand-written executable model; + ') + 'checked model/implementation correspondence (differential, 2-4 build configurations); everything outside translated bodies pinned item by item (skeleton)',
     })
 m = {'version': 1,
  'setup_cmd': 'sh tools/setup.sh',
